@@ -36,9 +36,9 @@ class C15(Check):
     assumptions = ["numpy.linalg.norm semantics", "scipy.integrate.ode.integrate returns its internal state array (same object on every call) - verified against scipy 1.18.1 source"]
 
     def run(self) -> None:
+        self.borrow("C01", ("A2",), "Z4")
         self.z1(SCIPY, "Scipy", confirmed=True)
         self.z2()
-        self.borrow("C01", ("A2",), "Z4")
 
     def run_thorough(self) -> None:
         for rel, cls in (("integrators/int_diffrax.py", "Diffrax"), ("integrators/int_assimulo.py", "Assimulo")):
